@@ -89,7 +89,8 @@ def mintsFee : Bool := Generated.ttcMintsAmountPlusFee
 
 def step (h : Hub) (line : String) : Hub × String :=
   match (line.trimAscii.toString.splitOn " ").filter (· != "") with
-  | ["reset"] => ({ params := { voteNum := Generated.voteThresholdNum, voteDen := Generated.voteThresholdDen } }, "ok")
+  | ["reset"] => ({ params := { voteNum := Generated.voteThresholdNum, voteAdd := Generated.voteThresholdAdd, voteDen := Generated.voteThresholdDen } }, "ok")
+  | ["init"] => (h, "ok")
   | ["chains", cs] => ({ h with chains := cs.splitOn "," }, "ok")
   | ["token", id, denom, chain, ext, dec, comm] =>
     match id.toNat?, dec.toNat?, comm.toInt? with
@@ -136,7 +137,7 @@ def step (h : Hub) (line : String) : Hub × String :=
   | ["send", sender, chain, recipient, denom, amount, fee, tx] =>
     match amount.toInt?, fee.toInt? with
     | some a, some f =>
-      match h.sendToExternal sender chain recipient denom a f tx with
+      match h.sendToExternal sender chain recipient denom a f (hexOfBytes (sha256 (strBytes ("tx:" ++ tx)))) with
       | .ok (h', id) => (h', s!"ok id={id}")
       | .error (.fail _) => (h, "err")
       | .error (.panic _) => (h, "panic")
@@ -147,12 +148,13 @@ def step (h : Hub) (line : String) : Hub × String :=
     | none => (h, "bad-op")
   | ["reqbatch", chain, denom] =>
     match h.requestBatch chain denom with
-    | .ok (h', b) => (h', s!"ok nonce={b.nonce}")
+    | .ok (h', some b) => (h', s!"ok nonce={b.nonce}")
+    | .ok (h', none) => (h', "ok nonce=none")
     | .error (.fail _) => (h, "err")
     | .error (.panic _) => (h, "panic")
   | "vote" :: chain :: signer :: ev =>
     match parseEvent ev with
-    | some e => outM (h.submitEvent chain signer e) h
+    | some e => if e.validBasic then outM (h.submitEvent chain signer e) h else (h, "err")
     | none => (h, "bad-op")
   | "hash" :: ev =>
     match parseEvent ev with
